@@ -1252,12 +1252,12 @@ Proof.
   intros Hk He Hd HL M0 M1 M2 M3 Hsk Hs Hee Hh Hw. unfold backbone_forward. rewrite Hk, He, Hd.
   unfold swint_enc. rewrite Hsk, Hs.
   assert (Hsps : pow2 e = 2 \/ pow2 e = 4).
-  { destruct e as [|[|[|]]]; try lia; cbn; auto. }
+  { clear - Hee. destruct e as [|[|[|]]]; try lia; cbn; auto. }
   cbn [map].
-  assert (H2h : 0 < 2 * h) by lia. assert (H2w : 0 < 2 * w) by lia.
-  assert (H4h : 0 < 2 * (2 * h)) by lia. assert (H4w : 0 < 2 * (2 * w)) by lia.
-  assert (H8h : 0 < 2 * (2 * (2 * h))) by lia. assert (H8w : 0 < 2 * (2 * (2 * w))) by lia.
-  assert (EX : 4 * C4 * 2 ^ Z.of_nat 3 = 2 * (2 * (2 * (4 * C4)))) by (compute_pows; lia).
+  assert (H2h : 0 < 2 * h) by (clear - Hh; lia). assert (H2w : 0 < 2 * w) by (clear - Hw; lia).
+  assert (H4h : 0 < 2 * (2 * h)) by (clear - Hh; lia). assert (H4w : 0 < 2 * (2 * w)) by (clear - Hw; lia).
+  assert (H8h : 0 < 2 * (2 * (2 * h))) by (clear - Hh; lia). assert (H8w : 0 < 2 * (2 * (2 * w))) by (clear - Hw; lia).
+  assert (EX : 4 * C4 * 2 ^ Z.of_nat 3 = 2 * (2 * (2 * (4 * C4)))) by (clear; compute_pows; lia).
   rewrite (feats_forward_cons_ok _ _ _ _ _ (run_stem _ _ _ _ _ st Hsps H8h H8w)).
   rewrite (feats_forward_cons_ok _ _ _ _ _ (run_sw_stage _ _ _ _ _ st M0)).
   rewrite (feats_forward_cons_ok _ _ _ _ _ (run_sw_merge _ _ _ st)).
@@ -1267,6 +1267,7 @@ Proof.
   rewrite (feats_forward_cons_ok _ _ _ _ _ (run_sw_merge _ _ _ st)).
   rewrite (feats_forward_cons_ok _ _ _ _ _ (run_sw_last _ _ _ _ _ _ st M3 EX)).
   cbn [feats_forward rev app every_other removelast].
+  clear M0 M1 M2 M3.
   replace (2 * (2 * (2 * (4 * C4)))) with (8 * (4 * C4)) by lia.
   apply tv_dec_forward. assumption.
   intros t Ht. unfold tv_out, tv_ch.
@@ -1286,5 +1287,249 @@ Proof.
   subst nhs. cbn [nth] in M0, M1, M2, M3.
   rewrite Eb.
   eapply (tv_model_forward C4 (s_kernel c) (s_up_interp c) e b He Hb); eauto.
-  eapply swint_backbone_forward; eauto. lia.
+  eapply swint_backbone_forward; eauto. clear - He Hb. lia.
+Qed.
+
+(* ------------------------------------ booleans of Shapes.v, as properties *)
+Lemma is_pow2_spec z : is_pow2 z = true -> exists n, z = pow2 n.
+Proof.
+  unfold is_pow2. intros H. apply andb_true_iff in H. destruct H as [H0 H1].
+  apply Z.ltb_lt in H0. apply Z.eqb_eq in H1.
+  exists (Z.to_nat (Z.log2 z)). rewrite pow2_eq, Z2Nat.id by apply Z.log2_nonneg. exact H1.
+Qed.
+
+Lemma pow2_le_inv a b : pow2 a <= pow2 b -> (a <= b)%nat.
+Proof.
+  intros H. destruct (le_lt_dec a b) as [|L]; auto. apply pow2_lt in L. lia.
+Qed.
+
+Lemma pow2_lt_inv a b : pow2 a < pow2 b -> (a < b)%nat.
+Proof.
+  intros H. destruct (le_lt_dec b a) as [L|]; auto.
+  destruct (Nat.eq_dec a b) as [->|]. lia. assert (pow2 b < pow2 a) by (apply pow2_lt; lia). lia.
+Qed.
+
+Lemma mod_pow2_mult H n : 0 < H -> H mod pow2 n = 0 -> exists h, 0 < h /\ H = h * pow2 n.
+Proof.
+  intros Hp Hm. pose proof (pow2_pos n). exists (H / pow2 n). split.
+  - apply Z.div_str_pos. split; auto. apply Z.mod_divide in Hm; [|lia].
+    apply Z.divide_pos_le in Hm; lia.
+  - rewrite Z.mul_comm. apply Z.div_exact in Hm; lia.
+Qed.
+
+Lemma mod_pow2_weaken H a b : (a <= b)%nat -> H mod pow2 b = 0 -> H mod pow2 a = 0.
+Proof.
+  intros Hab Hm. pose proof (pow2_pos a). pose proof (pow2_pos b).
+  apply Z.mod_divide in Hm; [|lia]. apply Z.mod_divide; [lia|].
+  eapply Z.divide_trans; [|exact Hm].
+  replace b with ((b - a) + a)%nat by lia. rewrite pow2_add. apply Z.divide_factor_r.
+Qed.
+
+Lemma existsb_false {A} (f : A -> bool) l : existsb f l = false -> forall x, In x l -> f x = false.
+Proof.
+  intros H x Hin. apply not_true_is_false. intros Hx.
+  assert (existsb f l = true) by (apply existsb_exists; eauto). congruence.
+Qed.
+
+(* ----------------------------------- UNet: the statement in selector form *)
+Lemma head_in_false_some u s d b hd t : (b <= t < s + d)%nat -> h_os hd = pow2 t ->
+  u_output_stride u = pow2 b ->
+  exists x, head_in_channels false (unet_backbone u s d b) (u_output_stride u) hd = Some x.
+Proof.
+  intros Ht E Hos. unfold head_in_channels.
+  cbn [unet_backbone bb_dec unet_decoder d_strides]. rewrite E, Hos.
+  destruct (pow2 t =? pow2 b). eauto.
+  rewrite (index_of_stride (s + d) b b), (index_of_stride (s + d) b t) by lia. eauto.
+Qed.
+
+Lemma unet_min_os u s d b heads : u_output_stride u = pow2 b -> heads_ok heads b (s + d) ->
+  Z.min (min_list (bb_output_stride (unet_backbone u s d b)) (map h_os heads))
+        (bb_output_stride (unet_backbone u s d b)) = u_output_stride u.
+Proof.
+  intros Hos Hheads. cbn [unet_backbone bb_output_stride]. rewrite min_list_ge. lia.
+  apply Forall_map. eapply Forall_impl; [|exact Hheads].
+  intros hd (t & Ht & E). cbn beta. rewrite E, Hos.
+  destruct (Nat.eq_dec b t) as [->|]. lia. assert (pow2 b < pow2 t) by (apply pow2_lt; lia). lia.
+Qed.
+
+Lemma selector_F43_false_sized u s d b heads :
+  unet_valid u s d b -> 2 <= u_convs_per_block u -> u_middle u = true -> heads_ok heads b (s + d) ->
+  selector_F43 (CfgUNet u) heads = false -> heads_sized false u s d b heads.
+Proof.
+  intros Hv Hcpb Hmid Hheads Hsel hd t Hin Eos.
+  pose proof Hv as (Hms & Hos & Hb & Hstem).
+  unfold selector_F43 in Hsel. cbn [build_backbone] in Hsel.
+  rewrite (build_unet_spec u s d b Hv Hcpb Hmid) in Hsel.
+  rewrite (unet_min_os u s d b heads Hos Hheads) in Hsel.
+  pose proof (existsb_false _ _ Hsel hd Hin) as Hhd. cbn beta in Hhd.
+  pose proof Hheads as Hh2. unfold heads_ok in Hh2. rewrite Forall_forall in Hh2.
+  destruct (Hh2 hd Hin) as (t' & Ht & E). rewrite E in Eos. apply pow2_inj in Eos. subst t'.
+  rewrite (heads_sized_fixed u s d b heads Hb Hheads hd t Hin E) in Hhd.
+  destruct (head_in_false_some u s d b hd t Ht E Hos) as (x & Ex). rewrite Ex in Hhd. rewrite Ex.
+  apply negb_false_iff, Z.eqb_eq in Hhd. congruence.
+Qed.
+
+Theorem unet_contract_partial fixed u heads H W :
+  valid_config (CfgUNet u) heads = true -> in_domain (CfgUNet u) H W = true ->
+  selector_F17 (CfgUNet u) = false -> selector_F18 (CfgUNet u) = false ->
+  selector_F41 (CfgUNet u) heads = false ->
+  (fixed = true \/ selector_F43 (CfgUNet u) heads = false) ->
+  exists m, build_model fixed (build_unet u) heads = Some m /\
+    forall st, fst (model_forward m st (u_in_channels u, H, W)) = Some (contracted heads H W).
+Proof.
+  intros Hval Hdom H17 H18 H41 H43.
+  unfold valid_config in Hval. cbn [cfg_output_stride cfg_max_stride] in Hval.
+  apply andb_true_iff in Hval. destruct Hval as [Hval Hu].
+  apply andb_true_iff in Hval. destruct Hval as [Hval Hvh].
+  apply andb_true_iff in Hval. destruct Hval as [Hpos Hpms].
+  apply andb_true_iff in Hu. destruct Hu as [Hu Hstem].
+  destruct (is_pow2_spec _ Hpos) as (b & Hos). destruct (is_pow2_spec _ Hpms) as (n & Hms).
+  (* stem *)
+  assert (Hs : exists s, (s <= n)%nat /\ ((s = 0%nat /\ u_stem_stride u = None) \/ u_stem_stride u = Some (pow2 s))).
+  { destruct (u_stem_stride u) as [sv|] eqn:Es.
+    - apply andb_true_iff in Hstem. destruct Hstem as [Hp Hle]. destruct (is_pow2_spec _ Hp) as (s & ->).
+      apply Z.leb_le in Hle. rewrite Hms in Hle. exists s. split. apply pow2_le_inv; auto. right; reflexivity.
+    - exists 0%nat. split. lia. left; auto. }
+  destruct Hs as (s & Hsn & Hstem').
+  set (d := (n - s)%nat). assert (En : n = (s + d)%nat) by (unfold d; lia).
+  (* selectors *)
+  unfold selector_F17 in H17. apply negb_false_iff in H17.
+  unfold selector_F18 in H18. apply Z.ltb_ge in H18.
+  unfold selector_F41 in H41. cbn [effective_max_stride] in H41.
+  unfold valid_heads in Hvh. apply andb_true_iff in Hvh. destruct Hvh as [Hne Hall].
+  rewrite forallb_forall in Hall.
+  assert (Hheads : heads_ok heads b n /\ (b < n)%nat).
+  { assert (Hh : forall hd, In hd heads -> exists t, (b <= t < n)%nat /\ h_os hd = pow2 t).
+    { intros hd Hin. specialize (Hall hd Hin).
+      apply andb_true_iff in Hall. destruct Hall as [Hall Hle2].
+      apply andb_true_iff in Hall. destruct Hall as [Hp2 H0].
+      destruct (is_pow2_spec _ Hp2) as (t & Et). exists t. split; auto.
+      cbn [cfg_output_stride] in H0. apply Z.leb_le in H0. rewrite Hos, Et in H0.
+      pose proof (existsb_false _ _ H41 hd Hin) as Hlt. cbn beta in Hlt. apply Z.leb_gt in Hlt.
+      rewrite Hms, Et in Hlt. split. apply pow2_le_inv; auto. apply pow2_lt_inv; auto. }
+    split. apply Forall_forall; auto.
+    destruct heads as [|hd0 ?]; [discriminate Hne|].
+    destruct (Hh hd0 (or_introl eq_refl)) as (t & Ht & _). lia. }
+  destruct Hheads as [Hheads Hbn].
+  assert (Hv : unet_valid u s d b).
+  { unfold unet_valid. rewrite <- En. repeat split; auto. }
+  (* input *)
+  unfold in_domain in Hdom. cbn [cfg_max_stride] in Hdom.
+  repeat (apply andb_true_iff in Hdom; destruct Hdom as [Hdom ?]).
+  apply Z.ltb_lt in Hdom. apply Z.ltb_lt in H2. apply Z.eqb_eq in H1. apply Z.eqb_eq in H0.
+  rewrite Hms in H0, H1.
+  destruct (mod_pow2_mult H n Hdom H1) as (h & Hh & ->).
+  destruct (mod_pow2_mult W n H2 H0) as (w & Hw & ->).
+  rewrite En in Hheads.
+  assert (Hsized : heads_sized fixed u s d b heads).
+  { destruct H43 as [-> | H43].
+    - apply heads_sized_fixed; auto. lia.
+    - destruct fixed. apply heads_sized_fixed; auto; lia.
+      apply selector_F43_false_sized; auto. }
+  destruct (unet_model_forward fixed u s d b heads fresh h w Hv H18 H17 Hheads Hsized Hh Hw) as (m & Em & _).
+  exists m. split. exact Em.
+  intros st.
+  destruct (unet_model_forward fixed u s d b heads st h w Hv H18 H17 Hheads Hsized Hh Hw) as (m' & Em' & Hf).
+  rewrite Em in Em'. injection Em' as <-. rewrite En. exact Hf.
+Qed.
+
+(* --------------------- ConvNeXt / Swin-T: the statement in selector form *)
+Lemma q_is_spec q n d : q_is q n d = true -> q = n # d.
+Proof.
+  unfold q_is. intros H. apply andb_true_iff in H. destruct H as [H1 H2].
+  apply Z.eqb_eq in H1. apply Pos.eqb_eq in H2. destruct q as [qn qd]. cbn in *. subst. reflexivity.
+Qed.
+
+Lemma tv_common (bos sps cfgmax eff : Z) heads H W e :
+  sps = pow2 e -> eff = pow2 (e + 3) -> is_pow2 bos = true -> is_pow2 cfgmax = true ->
+  forallb (fun hd => is_pow2 (h_os hd) && (bos <=? h_os hd) && (h_os hd <=? Z.max cfgmax eff)) heads = true ->
+  (sps <? Z.min (min_list bos (map h_os heads)) bos) = false ->
+  existsb (fun hd => eff <=? h_os hd) heads = false ->
+  (0 <? H) && (0 <? W) && (H mod cfgmax =? 0) && (W mod cfgmax =? 0) = true ->
+  (cfgmax <? eff) && negb ((H mod eff =? 0) && (W mod eff =? 0)) = false ->
+  exists b h w, bos = pow2 b /\ (b <= e)%nat /\ tv_heads_ok e b heads /\ 0 < h /\ 0 < w /\
+    H = pow2 e * (2 * (2 * (2 * h))) /\ W = pow2 e * (2 * (2 * (2 * w))) /\
+    H = h * pow2 (e + 3) /\ W = w * pow2 (e + 3).
+Proof.
+  intros Hsps Heff Hpb Hpm Hall H20 H41 Hdom H42.
+  destruct (is_pow2_spec _ Hpb) as (b & Hb). destruct (is_pow2_spec _ Hpm) as (mm & Hmm).
+  rewrite forallb_forall in Hall.
+  assert (Hh : forall hd, In hd heads -> exists t, (b <= t <= e + 2)%nat /\ h_os hd = pow2 t).
+  { intros hd Hin. specialize (Hall hd Hin).
+    apply andb_true_iff in Hall. destruct Hall as [Hall _].
+    apply andb_true_iff in Hall. destruct Hall as [Hp2 Hle].
+    destruct (is_pow2_spec _ Hp2) as (t & Et). exists t. split; auto.
+    apply Z.leb_le in Hle. rewrite Hb, Et in Hle.
+    pose proof (existsb_false _ _ H41 hd Hin) as Hlt. cbn beta in Hlt. apply Z.leb_gt in Hlt.
+    rewrite Heff, Et in Hlt. apply pow2_le_inv in Hle. apply pow2_lt_inv in Hlt. lia. }
+  assert (Hmin : min_list bos (map h_os heads) = bos).
+  { apply min_list_ge. apply Forall_map, Forall_forall. intros hd Hin.
+    destruct (Hh hd Hin) as (t & Ht & Et). rewrite Et, Hb.
+    destruct (Nat.eq_dec b t) as [->|]. lia. assert (pow2 b < pow2 t) by (apply pow2_lt; lia). lia. }
+  rewrite Hmin, Z.min_id in H20. apply Z.ltb_ge in H20. rewrite Hb, Hsps in H20. apply pow2_le_inv in H20.
+  repeat (apply andb_true_iff in Hdom; destruct Hdom as [Hdom ?]).
+  apply Z.ltb_lt in Hdom. apply Z.ltb_lt in H2. apply Z.eqb_eq in H1. apply Z.eqb_eq in H0.
+  assert (Hdiv : H mod pow2 (e + 3) = 0 /\ W mod pow2 (e + 3) = 0).
+  { apply andb_false_iff in H42. destruct H42 as [Hge | Hd].
+    - apply Z.ltb_ge in Hge. rewrite Heff, Hmm in Hge. apply pow2_le_inv in Hge.
+      rewrite Hmm in H0, H1. split; eapply mod_pow2_weaken; eauto.
+    - apply negb_false_iff, andb_true_iff in Hd. destruct Hd as [D1 D2].
+      apply Z.eqb_eq in D1. apply Z.eqb_eq in D2. rewrite Heff in D1, D2. auto. }
+  destruct Hdiv as [D1 D2].
+  destruct (mod_pow2_mult H (e + 3) Hdom D1) as (h & Hh0 & EH).
+  destruct (mod_pow2_mult W (e + 3) H2 D2) as (w & Hw0 & EW).
+  exists b, h, w. repeat split; auto.
+  - apply Forall_forall. auto.
+  - rewrite EH, pow2_add. cbn [pow2]. lia.
+  - rewrite EW, pow2_add. cbn [pow2]. lia.
+Qed.
+
+Lemma sps_pow2 sps : (sps =? 2) || (sps =? 4) = true -> exists e, (1 <= e <= 2)%nat /\ sps = pow2 e.
+Proof.
+  intros H. apply orb_true_iff in H. destruct H as [H|H]; apply Z.eqb_eq in H; subst.
+  - exists 1%nat. split. lia. reflexivity.
+  - exists 2%nat. split. lia. reflexivity.
+Qed.
+
+Theorem convnext_contract_partial fixed u heads H W :
+  valid_config (CfgConvNext u) heads = true -> in_domain (CfgConvNext u) H W = true ->
+  selector_F20 (CfgConvNext u) heads = false -> selector_F41 (CfgConvNext u) heads = false ->
+  selector_F42 (CfgConvNext u) H W = false ->
+  exists m, build_model fixed (build_convnext u) heads = Some m /\
+    forall st, fst (model_forward m st (c_in_channels u, H, W)) = Some (contracted heads H W).
+Proof.
+  intros Hval Hdom H20 H41 H42.
+  unfold valid_config in Hval. cbn [cfg_output_stride cfg_max_stride] in Hval.
+  apply andb_true_iff in Hval. destruct Hval as [Hval Hu].
+  apply andb_true_iff in Hval. destruct Hval as [Hval Hvh].
+  apply andb_true_iff in Hval. destruct Hval as [Hpos Hpms].
+  apply andb_true_iff in Hu. destruct Hu as [Hu Harch].
+  apply andb_true_iff in Hu. destruct Hu as [Hu Hker].
+  apply andb_true_iff in Hu. destruct Hu as [Hrate Hsps].
+  apply q_is_spec in Hrate. apply Z.eqb_eq in Hker.
+  destruct (sps_pow2 _ Hsps) as (e & He & Es).
+  (* the architecture *)
+  unfold convnext_arch_ok in Harch.
+  destruct (convnext_arch u) as [ds chs] eqn:Ea.
+  destruct chs as [|c0 [|c1 [|c2 [|c3 [|]]]]]; try discriminate Harch.
+  repeat (apply andb_true_iff in Harch; destruct Harch as [Harch ?]).
+  apply Nat.eqb_eq in Harch. apply Z.eqb_eq in H0, H1, H2, H3.
+  set (C4 := c0 / 4). assert (Ec0 : c0 = 4 * C4) by (unfold C4; lia).
+  assert (Eeff : effective_max_stride (CfgConvNext u) = pow2 (e + 3)).
+  { cbn [effective_max_stride]. rewrite Ea, Es. cbn [snd length]. rewrite pow2_add. compute_pows. lia. }
+  unfold valid_heads in Hvh. apply andb_true_iff in Hvh. destruct Hvh as [_ Hall].
+  unfold selector_F20 in H20. cbn [cfg_patch_stride cfg_output_stride] in H20.
+  unfold selector_F41 in H41. unfold selector_F42 in H42. cbn [cfg_patch_stride cfg_max_stride] in H42.
+  unfold in_domain in Hdom. cbn [cfg_max_stride] in Hdom. cbn [cfg_output_stride cfg_max_stride] in Hall.
+  destruct (tv_common (c_output_stride u) (c_stem_stride u) (c_max_stride u)
+              (effective_max_stride (CfgConvNext u)) heads H W e Es Eeff Hpos Hpms Hall H20 H41 Hdom H42)
+    as (b & h & w & Hos & Hbe & Hheads & Hh & Hw & EH & EW & EH2 & EW2).
+  assert (Hv : convnext_valid u C4 ds e b).
+  { unfold convnext_valid. rewrite Ea. repeat split; auto; try lia.
+    do 2 f_equal. lia. f_equal. lia. f_equal. lia. f_equal. lia. }
+  destruct (convnext_model_forward fixed u C4 ds e b heads fresh h w Hv Hheads Hh Hw) as (m & Em & _).
+  exists m. split. exact Em. intros st.
+  destruct (convnext_model_forward fixed u C4 ds e b heads st h w Hv Hheads Hh Hw) as (m' & Em' & Hf).
+  rewrite Em in Em'. injection Em' as <-.
+  rewrite <- EH, <- EW in Hf. rewrite <- EH2, <- EW2 in Hf. exact Hf.
 Qed.
